@@ -166,7 +166,15 @@ def droppable(yaml_dict):
 WORDS = ["x", "y", "rv", "tmp", "count", "=", "==", "+", "-", "*", "/", "(", ")", "{", "}", "[i]", ";", ",",
          "call", "foo(1, 2)", "return", "if", "end if", "&", "&&", "->", "::", "%", "'a b'", '"s t"',
          "0", "42", "1.5e-3", "// c", "! f", "/* k */", "\\", "{0}", "{name}", "%s", "$", "~", "|", "<", ">",
-         "caf\u00e9", "\u00b5m", "// \u65e5\u672c", "'\u00df'"]
+         "caf\u00e9", "\u00b5m", "// \u65e5\u672c", "'\u00df'",
+         # characters some line splitters treat as line ends (U+2028, NEL, form feed, vertical tab) inside a
+         # token, and a comment that merely mentions the marker words
+         "p\u2028q", "r\x85s", "v\x0bt", "// see splicer begin not.a.block"]
+# (a body that mentions "splicer end <word>" is rejected by the reader with "Mismatched tags": a
+#  diagnostic for text it cannot tell from a marker, not a loss of code - not generated)
+
+
+META_WORDS = ["f\x0cf", "t\tt"]  # the writer's formatting metacharacters inside a line (recorded finding)
 
 
 def gen_body(rng, uid, allow_tplus=True, from_yaml=False):
@@ -179,6 +187,8 @@ def gen_body(rng, uid, allow_tplus=True, from_yaml=False):
             lines.append("")  # empty line inside a body
             continue
         toks = [rng.choice(WORDS) for _ in range(rng.randint(1, 7))]
+        if allow_tplus == "meta" and rng.random() < 0.4:
+            toks.insert(rng.randrange(len(toks) + 1), rng.choice(META_WORDS))
         line = " ".join(toks) + " u%sk%d" % (uid, k)
         if r < 0.2:
             line = line + " " + " ".join(rng.choice(WORDS) for _ in range(rng.randint(8, 30)))  # long line
@@ -186,7 +196,7 @@ def gen_body(rng, uid, allow_tplus=True, from_yaml=False):
             line = " " * rng.randint(1, 9) + line  # user indentation
         if rng.random() < 0.15:
             line = line + " " * rng.randint(1, 4)  # trailing blanks (not significant)
-        if allow_tplus and rng.random() < 0.15:
+        if allow_tplus is True and rng.random() < 0.15:
             line = line.rstrip() + " +"  # a C/Fortran line ending in a binary plus
         if line[:1] in META:
             line = "z" + line  # column-one formatting metacharacters are outside the property's domain
@@ -209,6 +219,8 @@ def gen_history(seeds, libids, round_no, i, nlang_hint=None):
     ops = []
     uid = 0
     tplus = rng.random() < 0.12  # swarm: only some histories contain lines ending in "+"
+    if not tplus and rng.random() < 0.08:
+        tplus = "meta"  # ... and a few others contain tabs / form feeds inside lines (never both kinds)
     ncycles = rng.randint(1, 6)
     ops.append({"op": "REGEN"})
     for c in range(ncycles):
@@ -439,6 +451,13 @@ def classify_mismatch(want, got):
         if a != b:
             if a is not None and b is not None and a.endswith("+") and a[:-1].rstrip() == b:
                 return "trailing-plus-dropped", i, a, b
+            if a is not None and b is not None and ("\t" in a or "\f" in a):
+                # the writer's formatting metacharacters: a tab is dropped (or, in a long line, becomes
+                # the place where the line is broken), a form feed always breaks the line there
+                bb = b[:-1].rstrip() if b.endswith("&") else b
+                parts = re.split("[\t\f]", a)
+                if any("".join(parts[:k]).rstrip() in (b, bb) for k in range(1, len(parts) + 1)):
+                    return ("formfeed-breaks-line" if "\f" in a else "tab-removed"), i, a, b
             if b is None:
                 return "lines-missing", i, a, b
             if a is None:
